@@ -30,6 +30,7 @@ func cmdWire(args []string) {
 		Shards  []string `json:"shards"`
 		Samples []string `json:"samples"`
 		Bytes   int      `json:"bytes"`
+		Buffers int      `json:"buffers"`
 	}
 	s := sum{Engine: "wire"}
 	var cases []string
@@ -109,6 +110,39 @@ func cmdWire(args []string) {
 		os.WriteFile(name, []byte(txt), 0o644)
 		s.Shards = append(s.Shards, name)
 	}
+	// whole buffers through Buffer.WriteTo
+	var bcases []string
+	for i := 0; i < *n; i++ {
+		b := commit.NewBuffer(32)
+		name := []string{"a", "row", "x_long_column_name", ""}[rng.Intn(4)]
+		b.Reset(name)
+		for _, o := range genOps(rng.Fork(uint64(1000000+i)), rng.Intn(16), false) {
+			writeOp(b, o)
+		}
+		var w bytes.Buffer
+		if _, err := b.WriteTo(&w); err != nil {
+			continue
+		}
+		last, _, raw, hdrs := b.VerifState()
+		var hs []string
+		for _, h := range hdrs {
+			hs = append(hs, fmt.Sprintf("(%d, (%d, %d))", h.Chunk, h.Start, h.Value))
+		}
+		bcases = append(bcases, fmt.Sprintf("((%s, (%d, ([%s], %s))), %s)", coqBytes([]byte(name)), uint32(last), strings.Join(hs, "; "), coqBytes(raw), coqBytes(w.Bytes())))
+		s.Bytes += w.Len()
+	}
+	for i := 0; i < len(bcases); i += per {
+		j := i + per
+		if j > len(bcases) {
+			j = len(bcases)
+		}
+		name := filepath.Join(*out, fmt.Sprintf("wbuf_%05d.v", i))
+		txt := "From Coq Require Import NArith List.\nFrom ColumnV Require Import Wire WireCommit.\nImport ListNotations.\nLocal Open Scope N_scope.\n" +
+			fmt.Sprintf("Definition M := Eval vm_compute in wbuffer_mismatches %d [\n %s].\nPrint M.\n", 100000+i, strings.Join(bcases[i:j], ";\n "))
+		os.WriteFile(name, []byte(txt), 0o644)
+		s.Shards = append(s.Shards, name)
+	}
+	s.Buffers = len(bcases)
 	s.Cases = len(cases)
 	b, _ := json.MarshalIndent(s, "", " ")
 	os.WriteFile(filepath.Join(*out, "summary.json"), b, 0o644)
